@@ -752,7 +752,7 @@ class CommandLineAgainstLibrary(Part):
     name = "command_line_against_library_for_every_option_subset"
     desc = ("every subset of the valued options (-w, -r, -n, --preserve-prefixes, --preserve-addresses, "
             "--preserve-private-addresses, --preserve-host-bits) under each feature choice (-p, -a, -p -a, -u): the command "
-            "line writes the bytes anonymize_files writes for the same options")
+            "line writes the bytes anonymize_files writes for the same options; the list values also with a blank after each comma")
 
     TEXT = ("hostname seattle-core KeepMe\n ip address 10.1.2.3 255.255.255.0\n ip address 11.11.62.24 255.255.0.0\n"
             " ip address 12.7.7.7 255.0.0.0\n ip address 172.16.9.9 192.168.4.4\n ipv6 address 2001:db8::1:5/64\nrouter bgp 65001\n"
@@ -766,7 +766,8 @@ class CommandLineAgainstLibrary(Part):
         self.tier, self.seed = tier, seed
 
     def cases(self):
-        return [{"features": f, "mask": m} for f in self.FEATURES for m in range(0, 1 << len(self.OPTS), 8)]
+        return [{"features": f, "mask": m} for f in self.FEATURES for m in range(0, 1 << len(self.OPTS), 8)] + \
+               [{"features": f, "mask": m, "blank_after_comma": True} for f in self.FEATURES for m in range(0, 1 << len(self.OPTS), 8)]
 
     def run(self, case):
         from netconan.anonymize_files import anonymize_files
@@ -777,7 +778,11 @@ class CommandLineAgainstLibrary(Part):
         try:
             masks = [case["one"]] if "one" in case else range(case["mask"], case["mask"] + 8)
             for m in masks:
-                chosen = [o for i, o in enumerate(self.OPTS) if m >> i & 1]
+                opts = self.OPTS
+                if case.get("blank_after_comma"):
+                    # the lists as a user types them: "-w 'seattle, core'" - both entry points get the items as split at the commas
+                    opts = [(f, v.replace(",", ", ") if v and k else v, k) for f, v, k in self.OPTS]
+                chosen = [o for i, o in enumerate(opts) if m >> i & 1]
                 argv, kw = ["-s", "saltForTest"] + list(case["features"]), {"preserve_suffix_v4": 8, "preserve_suffix_v6": 8}
                 for flag, val, key in chosen:
                     argv += [flag] + ([val] if val is not None else [])
@@ -819,7 +824,7 @@ class CommandLineAgainstLibrary(Part):
                     else:
                         what = "command line: %r ; library: %r" % (str(cli)[:150], str(lib)[:150])
                     res.violation("command-line-and-library-differ|" + "+".join(o[0].lstrip("-") for o in chosen),
-                                  "argv %r vs anonymize_files(%r): %s" % (argv, kw, what), {"features": case["features"], "mask": case["mask"], "one": m})
+                                  "argv %r vs anonymize_files(%r): %s" % (argv, kw, what), dict(case, one=m))
             if "one" not in case:
                 res.samples.append(case)
         finally:
